@@ -146,6 +146,20 @@ def run_c09(ctx, C):
     codec_common(ctx, C, [GEN_DH, GEN_KEYS], [], mcs=[MC_SALIFE], traces=())
 
 
+GEN_CIPHER = dict(module="Gen_Cipher", name="cipher")
+MC_CIPHER = dict(module="CipherObj", name="cipherobj", constants=dict(PerCallIV=True, MaxCalls=lambda ctx: 5 if ctx.thorough else 4, FailPoints="{0, 1, 2, 3}"),
+                 invariants=("FreshIV", "SizeLaw", "KeySizeExact", "NoResultOnFailure"), view="View",
+                 what="cipher objects, IV set and failing random source: all call sequences")
+MC_CIPHER_KNOB = dict(module="CipherObj", name="cipherobj_knob_PerCallIV", expect="violate",
+                      constants=dict(PerCallIV=False, MaxCalls=4, FailPoints="{0, 1, 2, 3}"),
+                      invariants=("FreshIV", "SizeLaw", "KeySizeExact", "NoResultOnFailure"), view="View",
+                      what="sanity: an object that caches its IV repeats it")
+
+
+def run_c10(ctx, C):
+    codec_common(ctx, C, [GEN_CIPHER], [], mcs=[MC_CIPHER, MC_CIPHER_KNOB], traces=("Trace_Cipher",))
+
+
 def run_c06(ctx, C):
     codec_common(ctx, C, [GEN_SK], [], mcs=[MC_SK], traces=("Trace_SK",))
 
@@ -155,6 +169,12 @@ def run_c04(ctx, C):
 
 
 PLANS = {
+    "C10": dict(level="model_checking", run=run_c10, assumptions=ASSUME_SK,
+                rule="CipherObj.tla model-checked (FreshIV, SizeLaw, KeySizeExact, NoResultOnFailure; knob-off sanity run); 3 key sizes x plaintext lengths "
+                     "0..64 and {255,256,257,4095,4096} under deterministic and system sources (inverse, length law as a set of legal lengths, IV made of "
+                     "delivered octets, no IV repeat); Decrypt EXHAUSTIVELY over total lengths 0..96 x all 256 recovered pad-length octets (spec-built "
+                     "ciphertexts as AES-CBC terms) in three capacity layouts; keys of every size 0..64 for each type; call histories on two objects with "
+                     "failing reads; every recorded Encrypt is judged by TLC with a textbook-CBC echo oracle (Trace_Cipher)"),
     "C08": dict(level="model_checking", run=run_c08, assumptions=ASSUME_SK,
                 rule="ChildIsFunction model-checked in SALife.tla and AsFresh (with the PRF object's hidden state) in SKChannel.tla, sanity run with "
                      "Reset-per-block removed; TLC prints, for each PRF, derivation sequences on ONE long-lived IKE SA object cycling through all 12 "
